@@ -69,4 +69,4 @@ def replay(pid, path):
 MANIFEST = dict(engine='tlc-gen+harness+tlc-trace', ref='DESIGN.md section 6 C05',
    technique='TLC enumerates (signature, parameter list) pairs over ScpiParser.tla; reader outcomes, queued errors and return values of the real parser validated by TLC (TVParser)',
    text='TLC enumerates handler signatures against parameter lists (bounded exhaustively as stated in the evidence rule), the real library executes each, and TLC validates per reader call success / delivered bytes, the sequence of error callbacks (-109, -108, -104, -138, -131, -224, -200), and the value returned by the input call against the specification.',
-   note='Trusted: TLC, scripted-handler driver. SCPI_ParamNumber and array readers are not part of this check yet.')
+   note='Also validated: hook traces of the repository test programs (TVSuite) and random messages of a minimal instrument against the composition Scpi.tla (TVScpi). Trusted: TLC, scripted-handler driver. SCPI_ParamNumber and array readers are not part of this check yet.')
